@@ -68,7 +68,7 @@ Definition tlv_summary (s : bytes) : list (Z * Z) :=
 
 Definition run_C04 (b : bytes) (sizes : list Z) : observed :=
   mkObs
-    match (if byte_at 0 b mod 16 =? 12 then RErr EEnumConversion else decode b) with
+    match decode b with
     | RErr e => ObsErr e
     | ROk m =>
         ObsOk (probe_of 2048 m)
